@@ -294,7 +294,7 @@ Definition prog_count_state (q : list (list val)) (w s : Z) (u : list val -> val
 
 (* ---- the library of update functions (Python twins in py/c11.py) ---- *)
 Definition z_of (v : val) : Z := match v with VInt z => z | _ => 0 end.
-(* lambda vs, s: (s if s is not None else 0) + sum(vs) *)
+(* lambda vs, s: (s if s is not None else 0) + sum(v or 0 for v in vs)   (None values count as 0) *)
 Definition u_sum (vs : list val) (s : val) : val := VInt (z_of s + sumZ (map z_of vs)).
 (* lambda vs, s: s if not vs else vs[-1] *)
 Definition u_last (vs : list val) (s : val) : val := match vs with [] => s | _ => last vs VNone end.
@@ -310,5 +310,13 @@ Definition u_history (vs : list val) (s : val) : val :=
 (* lambda vs, s: 0 if vs else (s or 0) + 1   -- intervals since the key last had data *)
 Definition u_idle (vs : list val) (s : val) : val :=
   match vs with [] => VInt (z_of s + 1) | _ => VInt 0 end.
-(* lambda vs, s: sum(vs) + (s or 0) // 2   -- a sum that halves every interval (floor division) *)
+(* lambda vs, s: sum(v or 0 for v in vs) + (s or 0) // 2   -- a sum that halves every interval (floor division) *)
 Definition u_decay (vs : list val) (s : val) : val := VInt (sumZ (map z_of vs) + z_of s / 2).
+(* update functions that can return None (a None state is still a state: the key stays in the state RDD) *)
+(* lambda vs, s: None if not vs else (s or 0) + len(vs)   -- a count that is reset to None when the key is absent *)
+Definition u_reset (vs : list val) (s : val) : val :=
+  match vs with [] => VNone | _ => VInt (z_of s + Z.of_nat (length vs)) end.
+(* the smallest non-None value seen so far, None while there is none *)
+Definition ints_of (vs : list val) : list Z := flat_map (fun v => match v with VInt z => [z] | _ => [] end) vs.
+Definition u_minopt (vs : list val) (s : val) : val :=
+  match ints_of (vs ++ [s]) with [] => VNone | z :: zs => VInt (fold_left Z.min zs z) end.
